@@ -36,7 +36,7 @@ def parts(tier):
 @gen.st.composite
 def _strategy(draw):
     st = gen.st
-    case = draw(gen.election_case(statuses=COMPLETE_STATUSES, special_counties=False, min_nonrep=1, max_alphas=3, alphas_pool=(0.5, 0.6, 0.7, 0.8), slack=(0, 8), max_other=10))
+    case = draw(gen.election_case(statuses=COMPLETE_STATUSES, special_counties=False, min_nonrep=1, max_alphas=3, alphas_pool=(0.5, 0.6, 0.7, 0.8), slack=(0, 8), max_other=10, lopsided=0.15))  # lopsided: units one party did not contest last time (baseline 0 for ONE estimand)
     req = case["req"]
     if "unit" not in req["aggregates"]:
         req["aggregates"] = req["aggregates"] + ["unit"]
